@@ -1377,7 +1377,8 @@ class Desugar(ast.NodeTransformer):
     def visit_Match(self, node):
         subj = node.subject
         pre: List[ast.stmt] = []
-        if not _simple(subj):
+        tuple_subject = isinstance(subj, ast.Tuple) and all(_simple(e) or (isinstance(e, ast.Attribute) and not any(isinstance(x, ast.Call) for x in ast.walk(e))) for e in subj.elts)
+        if not _simple(subj) and not tuple_subject:
             self.tmp += 1
             nm = f"__match{self.tmp}"
             pre.append(ast.copy_location(ast.Assign(targets=[ast.Name(id=nm, ctx=ast.Store())], value=subj), node))
@@ -1440,6 +1441,20 @@ class Desugar(ast.NodeTransformer):
                     return True
                 alts.append(t)
             return ast.copy_location(ast.BoolOp(op=ast.Or(), values=alts), p)
+        if isinstance(p, ast.MatchSequence):
+            # `match (a, b): case (X, Y):` with the subject written as a tuple of plain expressions: element by element
+            if not isinstance(subj, ast.Tuple) or len(p.patterns) != len(subj.elts) or any(isinstance(q, ast.MatchStar) for q in p.patterns):
+                return None
+            parts_: List[ast.expr] = []
+            for q, e in zip(p.patterns, subj.elts):
+                t = self._pattern(q, e, binds)
+                if t is None:
+                    return None
+                if t is not True:
+                    parts_.extend(t.values if isinstance(t, ast.BoolOp) and isinstance(t.op, ast.And) else [t])
+            if not parts_:
+                return True
+            return parts_[0] if len(parts_) == 1 else ast.copy_location(ast.BoolOp(op=ast.And(), values=parts_), p)
         if isinstance(p, ast.MatchClass):
             if p.patterns:
                 return None                   # positional sub-patterns need __match_args__: left alone
